@@ -505,6 +505,7 @@ func evalModule(fm *Frame, key string, src parse.Source, r diag.Ranger) (*Ns, er
 	}
 	// Installs the namespace before executing. This prevent circular use'es
 	// from resulting in an infinite recursion.
+	verifTrace(fm.Evaler, fm, "module.install-begin")
 	fm.Evaler.setModule(fm, key, ns)
 	verifTrace(fm.Evaler, fm, "module.exec-begin")
 	err = exec()
